@@ -150,7 +150,7 @@ class Context:
                                   '--stops=' + ','.join(stops)])
             if rc != 0:
                 raise AnalysisBroken('mythir --prep failed: %s' % se[-1000:])
-            rc, so, se = fe._run([fe.OPT, '-passes=always-inline,function(sroa,instsimplify,jump-threading,instsimplify,loop-simplify,lcssa)',
+            rc, so, se = fe._run([fe.OPT, '-passes=always-inline,function(sroa,early-cse,instsimplify,jump-threading,instsimplify,loop-simplify,lcssa)',
                                   prep, '-S', '-o', ll])
             if rc != 0:
                 raise AnalysisBroken('opt (view) failed on %s: %s' % (file, se[-1000:]))
